@@ -495,7 +495,7 @@ class C07(FsScenario):
     rule = (C01.rule + "; extended alphabet: operations on directories after they were moved out of the tree, names re-used after a drain, deletion of the root as last operation; "
             "vanish faults: right before the library's k-th inotify_add_watch the entry it is about to watch is really removed (<=2 per run, half of the runs); "
             "refused watches: the k-th inotify_add_watch after start() fails with ENOSPC/EACCES (15% of the runs; 40% of those use a directed shape: a watched directory leaves a refused one, "
-            "then an ancestor of its old path is renamed); after a root deletion half of the runs re-create the root and schedule the same watch again")
+            "then an ancestor of its old path is renamed); a directory that left the tree may come straight back to the path it left while its IN_MOVED_FROM is still held back (5% of the runs start from that shape); after a root deletion half of the runs re-create the root and schedule the same watch again")
     level_text = ("Liveness under histories and transient lookup failures: no library thread ends with an uncaught exception, the run neither deadlocks nor hangs, a probe file in every directory "
                   "that exists after the history is still reported (a directory whose watch the kernel refused and what lies below it excepted), and after the root was deleted exactly one "
                   "DirDeletedEvent(root) is delivered, the emitter and its reader thread have finished, their descriptors are closed before any stop(), nothing further is delivered, and a "
@@ -505,7 +505,35 @@ class C07(FsScenario):
     nonrec_share = 0.15
     paced_out = False  # liveness must hold when a moved-out directory is touched or removed at once (within the pairing delay)
 
+    def __init__(self, *a, **k):
+        super().__init__(*a, **k)
+        fm.RETURN_HOME = True  # this process runs C07: a directory may come straight back to the path it left
+
     def tweak(self, case, rng, cfg):
+        hrng = random.Random(f"{cfg.random()}:home")
+        if hrng.random() < 0.05 and case["watch"].get("recursive", True):
+            # directed shape: a directory leaves the tree and comes straight back under its own name (two unpaired
+            # renames inside the pairing delay); when the held-back IN_MOVED_FROM expires nothing of the returned tree may
+            # lose its watch
+            m = fm.Model()
+            for op in case["pre"]:
+                fm.apply(m, op)
+            dirs = sorted(d for d in m.dirs_in("root") if d != "root")
+            pre = list(case["pre"])
+            if not dirs:
+                pre += [["mkdir", "root/a"], ["mkdir", "root/a/b"]]
+                dirs = ["root/a"]
+            d = hrng.choice(dirs)
+            ops = [["moveout", d, "o0"], ["moveback", "out/o0", d]] + ([["drain"]] if hrng.random() < 0.7 else []) + [["mkfile", d + "/" + hrng.choice("abc")], ["drain"]]
+            pre_kept, _ = fm.revalidate([], pre, paced=False)
+            kept, _ = fm.revalidate(pre_kept, ops, paced=True, paced_out=False)
+            mk = fm.Model()
+            for op in pre_kept:
+                fm.apply(mk, op)
+            if len(kept) >= 3 and kept[1][0] == "moveback" and mk.kind(d) == "d":
+                case["pre"], case["ops"] = pre_kept, kept
+                case["directed"] = "out-and-straight-back"
+                return
         frng = random.Random(f"{cfg.random()}:vanish")
         if frng.random() < 0.5:
             m = fm.Model()
